@@ -1,6 +1,9 @@
 #!/bin/bash
-cd /verif
+# dev helper: run checks on every behaviour-preserving change of seeded/benign (all must stay silent).
+# usage: dev/benign.sh [checks...]   (default: all six; VERIF_DUR, VERIF_SEED are passed through)
+V="$(cd "$(dirname "$0")/.." && pwd)"; cd "$V"
+checks="${*:-C14 C02 C13 C06 C17 C15}"
 for d in seeded/benign/*/; do
   echo "=== benign $(basename $d)"
-  VERIF_DUR=10 SKIPTEST=1 dev/seed.sh /verif/$d/patch.diff C14 C02 C13 C06 C17 C15
+  SKIPTEST=1 dev/seed.sh "$V/$d/patch.diff" $checks
 done
